@@ -325,19 +325,26 @@ def _check_shapes(ctx: Ctx) -> None:
     ctx.rule('C15.c', 'binary->Gray is n ^ (n >> 1); bit errors = sum(popcount(xor(a, b))); popcount loop', floor=3)
     fn = M.func(CONV, 'binary2gray')
     ctx.instance('C15.c', 'binary2gray')
+    from ..astutil import expander
+    ex = expander(fn)
     rets = [n for n in walk_no_nested(fn.node) if isinstance(n, ast.Return)]
     ok = False
-    if len(rets) == 1:
-        ops = xor_operands(rets[0].value)
+    recognised = False
+    if len(rets) == 1 and rets[0].value is not None:
+        ops = xor_operands(ex(rets[0].value))
         if ops is not None:
             p = fn.params[0]
             for a, b in (ops, ops[::-1]):
                 sh = shift_of(a)
-                if sh is not None and sh == (p, 1) and norm(b) == p:
-                    ok = True
-    ctx.obligation('C15.c', 'binary2gray', ok, {'returns': [norm(r.value) for r in rets]})
+                if sh is not None:
+                    recognised = True
+                    if sh == (p, 1) and norm(b) == p:
+                        ok = True
+    if not ok and not recognised:
+        ctx.error('C15.c: binary2gray does not return an xor with a right shift (cannot tell): %s' % [norm(r.value) for r in rets])
+    ctx.obligation('C15.c', 'binary2gray', ok, {'returns': [norm(ex(r.value)) for r in rets]})
     if not ok:
-        ctx.violation('C15.c', 'binary2gray', 'is not n ^ (n >> 1): `%s`' % [norm(r.value) for r in rets], fn.path, fn.lineno,
+        ctx.violation('C15.c', 'binary2gray', 'is not n ^ (n >> 1): `%s`' % [norm(ex(r.value)) for r in rets], fn.path, fn.lineno,
                       operand='shape')
     fn = M.func(MISC, 'count_bit_errors')
     ctx.instance('C15.c', 'count_bit_errors')
